@@ -39,6 +39,7 @@ import re
 import typing
 
 from . import gen
+from . import gen_c04_seq as seqs
 
 OUT = os.path.join(gen.GEN_DIR, 'Gen_C04.v')
 C_SER = 'src/nunavut/lang/c/templates/serialization.j2'
@@ -50,8 +51,7 @@ CPP_UNION = 'src/nunavut/lang/cpp/templates/_fields_as_union.j2'
 SOURCES = ', '.join([C_SER, C_DES, C_DEF, C_SUP, CPP_DES, CPP_UNION])
 
 
-class Closed(Exception):
-    pass
+Closed = seqs.Closed
 
 
 def strip_comments(text: str) -> str:
@@ -248,13 +248,19 @@ def facts() -> typing.Dict[str, bool]:
     em = m.group(1)
     f['union_emplace_destroy_first'] = (pos(em, r'destroy_current\(\)\s*;', 'emplace destroy') < pos(em, r'do_emplace<I>\(', 'emplace construct')
                                         < pos(em, r'tag_\s*=\s*I\s*;', 'emplace tag'))
+    csup = strip_comments(gen.read_repo('src/nunavut/lang/cpp/support/serialization.j2'))
+    f['cpp_subspan_clamped'] = seqs.subspan_clamped(csup)
+    _SEQS.clear()
+    _SEQS.update({'vla': seqs.coq_vla(seqs.vla_paths(macro(cdes, '_deserialize_variable_length_array').split('%}', 1)[1])), 'union': seqs.union_seqs(uni),
+                  'cev': seqs.c_event_seqs(macro, ser, des)})
     return f
 
 
-STATE = ['c_len_check_is_dsdl_capacity', 'c_len_check_storage', 'c_ser_guarded', 'c_des_ptr_clamped']   # either value is a recognised shape
+_SEQS: typing.Dict[str, typing.Any] = {}
+STATE = ['c_len_check_is_dsdl_capacity', 'c_len_check_storage', 'c_ser_guarded', 'c_des_ptr_clamped', 'cpp_subspan_clamped']   # either value is a recognised shape
 ORDER = ['c_ser_up_front_first', 'c_ser_check_guard_is_override', 'c_ser_tag_chain_closed', 'c_ser_len_check_first', 'c_des_len_check_first',
          'c_len_check_is_dsdl_capacity', 'c_len_check_storage', 'c_ser_guarded', 'c_des_ptr_clamped', 'c_des_remaining_live', 'c_des_header_check_first', 'c_des_tag_chain_closed', 'c_des_bool_guarded', 'c_des_byte_guarded',
-         'c_getbits_zero_from_floor', 'cpp_vla_clear_first', 'union_destroy_unfiltered', 'union_emplace_destroy_first']
+         'c_getbits_zero_from_floor', 'cpp_subspan_clamped', 'cpp_vla_clear_first', 'union_destroy_unfiltered', 'union_emplace_destroy_first']
 
 
 def gen_c04() -> typing.Tuple[bool, str]:
@@ -266,10 +272,18 @@ def gen_c04() -> typing.Tuple[bool, str]:
     except (Closed, OSError, ValueError) as ex:
         gen.write_if_changed(OUT, gen.HEADER % SOURCES + '(* translator failed closed: %s *)\n' % str(ex).replace('*)', '* )'))
         return False, 'failed closed: %s' % ex
-    lines = [gen.HEADER % SOURCES, '(* structural facts of the (de)serialization templates read by tools/translators/gen_c04.py *)\n']
+    lines = [gen.HEADER % SOURCES, 'From Verif Require Import WalkerSafe WalkerSafeCpp.\nFrom Coq Require Import List.\nImport ListNotations.\n',
+             '(* structural facts of the (de)serialization templates read by tools/translators/gen_c04.py *)\n']
     for k in ORDER:
         lines.append('Definition tpl_%s : bool := %s.\n' % (k, 'true' if f[k] else 'false'))
     lines.append('\nDefinition tpl_order_facts : bool :=\n  %s.\n' % ' && '.join('tpl_' + k for k in ORDER if not k.startswith(('cpp_', 'union_')) and k not in STATE))
+    lines.append('\n(* statement sequences, in textual order; interpreted / decided on the Coq side *)\n')
+    lines.append('Definition tpl_cpp_vla_paths : list (list vstmt) :=\n  %s.\n' % _SEQS['vla'])
+    lines.append('Definition tpl_union_emplace : list ustmt := %s.\n' % _SEQS['union']['emplace'])
+    lines.append('Definition tpl_union_ctor : list cstmt := %s.\n' % _SEQS['union']['ctor'])
+    lines.append('Definition tpl_union_dshape : dshape := %s.\n' % _SEQS['union']['dshape'])
+    for k, v in _SEQS['cev'].items():
+        lines.append('Definition tpl_c_events_%s : list ev := %s.\n' % (k, v))
     gen.write_if_changed(OUT, ''.join(lines))
     bad = [k for k in ORDER if not f[k] and k not in STATE]
     return True, 'Gen_C04.v: %d facts, false: %s; state: %s' % (len(ORDER), bad or 'none', {k: f[k] for k in STATE})
